@@ -2,6 +2,8 @@
 
 from __future__ import annotations
 
+import contextlib
+
 import typing as tp
 
 from typelib import ctx, graph
@@ -95,7 +97,13 @@ class DelayedUnmarshaller(routines.AbstractUnmarshaller[T]):
     def resolved(self) -> routines.AbstractUnmarshaller[T]:
         """The resolved unmarshaller."""
         if self._resolved is None:
-            self._resolved = unmarshaller(self.t)
+            # References compare by their text: look the routine up by the type the
+            #   reference stands for right now, not by whatever carried that name before.
+            t = self.t
+            if inspection.isforwardref(t):
+                with contextlib.suppress(NameError, TypeError, AttributeError):
+                    t = refs.evaluate(t)
+            self._resolved = unmarshaller(t)
             for attr in self._resolved.__slots__:
                 setattr(self, attr, getattr(self._resolved, attr))
         return self._resolved
